@@ -857,24 +857,37 @@ Definition parse (isld : N -> bool) (f : nat) (b : str) : pres :=
 
 Definition parse_fuel (b : str) : nat := (40 * length b + 100)%nat.
 
+(* case files write byte strings with non-printable bytes as \hh (two lower-case hex digits) *)
+Definition hexval (c : N) : N := if c <? 58 then c - 48 else c - 87.
+Fixpoint unesc (l : str) : str :=
+  match l with
+  | 92 :: a :: b :: r => (16 * hexval a + hexval b) :: unesc r
+  | c :: r => c :: unesc r
+  | [] => []
+  end.
+Definition sx (x : string) : str := unesc (s x).
+Arguments sx x%string.
+
 (* ---- correspondence cases ---------------------------------------------------------------------- *)
 Inductive lex_obs :=
-| OLexOk (toks : list (Z * str * nat))
-| OLexErr (ntoks : nat) (p : nat)
+| OLexOk (toks : list (Z * str * N))   (* positions and counts are written in binary in case files *)
+| OLexErr (ntoks : N) (p : N)
 | OLexOther.                       (* unpositioned error or a panic that is not an error *)
 
 Inductive parse_obs :=
-| OParseOk (nstatements : nat)
-| OParseErr (p : nat)
+| OParseOk (nstatements : N)
+| OParseErr (p : N)
 | OParseOther.
 
 Inductive case :=
 | Case (input : str) (letters : list N) (lobs : lex_obs) (pobs : parse_obs).
 
-Definition tok_eqb (t : tok) (o : Z * str * nat) : bool :=
-  let '(ty, v, p) := o in (ttype t =? ty)%Z && str_eqb (tval t) v && (tpos t =? p)%nat.
+Definition nat_is (a : nat) (b : N) : bool := N.of_nat a =? b.
 
-Fixpoint toks_eqb (a : list tok) (b : list (Z * str * nat)) : bool :=
+Definition tok_eqb (t : tok) (o : Z * str * N) : bool :=
+  let '(ty, v, p) := o in (ttype t =? ty)%Z && str_eqb (tval t) v && nat_is (tpos t) p.
+
+Fixpoint toks_eqb (a : list tok) (b : list (Z * str * N)) : bool :=
   match a, b with
   | [], [] => true
   | x :: a', y :: b' => tok_eqb x y && toks_eqb a' b'
@@ -887,14 +900,14 @@ Definition check (c : case) : bool :=
       let isld r := existsb (N.eqb r) letters in
       (match lex_all isld (lex_fuel input) input, lobs with
        | LexOk toks, OLexOk otoks => toks_eqb toks otoks
-       | LexErr toks p, OLexErr n q => (length toks =? n)%nat && (p =? q)%nat
+       | LexErr toks p, OLexErr n q => nat_is (length toks) n && nat_is p q
        | LexInternal, OLexOther => true
        | _, _ => false
        end)
       &&
       (match parse isld (parse_fuel input) input, pobs with
-       | POk (VNum n) _, OParseOk m => (n =? m)%nat
-       | PSyn p, OParseErr q => (p =? q)%nat
+       | POk (VNum n) _, OParseOk m => nat_is n m
+       | PSyn p, OParseErr q => nat_is p q
        | PInternal, OParseOther => true
        | _, _ => false
        end)
